@@ -373,6 +373,15 @@ def gen_update(rng, shape: dict, unknown_codes: list[int], force: str | None = N
             else:
                 tags.add('as4-aggregator-ignored')
             attrs.append(gen_simple_attr(rng, 18, shape, tags, unknown_codes))
+    # classic IPv4 routes and an MP_REACH of another IPv4 family behind the SAME next-hop address: the
+    # reports must still keep the two families apart
+    nh3 = next((a for a in attrs if a['code'] == 3), None)
+    reach = next((a for a in mp if a['code'] == 14), None)
+    if u['n'] and nh3 is not None and reach is not None and reach['fam'][0] == 1 and reach['fam'] != (1, 1):
+        v4 = reach['nh'][16:] if reach['fam'][1] == 128 else reach['nh']
+        if len(v4) == 8 and rng.random() < 0.6:
+            nh3['f'] = [v4]
+            tags.add('same-nexthop-classic+mp')
     for _ in range(rng.choice([0, 0, 0, 1, 1, 2])):
         used = {a['code'] for a in attrs}
         cand = [c for c in unknown_codes if c not in used]
@@ -532,6 +541,21 @@ def boundary_cases(rng, shape: dict, unknown_codes: list[int]) -> list[dict]:
         a = {'code': 14, 'fam': fam, 'nh': ('00' * 8 if safi == 128 else '') + ('0a000001' if afi == 1 else '20010db8' + '00' * 11 + '01'), 'nlris': [n], 'flags': '1000'}
         u = {'w': [], 'a': [{'code': 1, 'f': ['2'], 'flags': '0100'}, {'code': 2, 'segs': [], 'f': ['-'], 'flags': '0100'}, a], 'n': [], 'tags': {'max-nlri', 'kind:boundary', f'reach-{afi}.{safi}'}}
         out.append(u)
+    # classic IPv4 NLRI + MP_REACH of every other family reachable through the same IPv4 address
+    # (and, for contrast, a different one), MP attribute before and after NEXT_HOP
+    for fam in [(1, 2), (1, 4), (1, 128), (1, 1)]:
+        for same in (True, False):
+            for mp_first in (False, True):
+                u = base({'same-nexthop-classic+mp' if same else 'other-nexthop-classic+mp', f'reach-{fam[0]}.{fam[1]}'})
+                u['n'] = [gen_nlri(rng, pool, 1, 1, (1, 1) in aps, False) for _ in range(2)]
+                ns = [gen_nlri(rng, pool, fam[0], fam[1], fam in aps, False) for _ in range(2)]
+                v4 = '0a000001' if same else '0a000002'
+                a = {'code': 14, 'fam': fam, 'nh': ('00' * 8 if fam[1] == 128 else '') + v4, 'nlris': ns, 'flags': '1000'}
+                if mp_first:
+                    u['a'].insert(0, a)
+                else:
+                    u['a'].append(a)
+                out.append(u)
     # VPN-IPv6 next hop with a link-local address: 48 bytes (RFC 4659 §3.2.1.1)
     n = gen_nlri(rng, pool, 2, 128, (2, 128) in aps, False)
     nh = '00' * 8 + '20010db8' + '00' * 11 + '01' + '00' * 8 + 'fe80' + '00' * 13 + '01'
